@@ -4,6 +4,7 @@ import I18n.Lemmas.MetaBinary
 import I18n.Lemmas.MetaBlame
 import I18n.Lemmas.MetaRealBinary
 import I18n.Lemmas.MetaRealCharset
+import I18n.Lemmas.MetaRealHeader
 import I18n.Spec.Metamorphic
 import I18n.Generated.BinaryReads
 /-!
@@ -573,6 +574,15 @@ theorem transcoding_composed (w : Real.World) (hdb : Real.DbOk w.hx.db) (fl : Bi
     Spec.Metamorphic.EqModulo Real.notCharset (runStages (Real.pipeline w) (fl, k1)).1 (runStages (Real.pipeline w) (fl, k2)).1 ∧
     (runStages (Real.pipeline w) (fl, k1)).2 = (runStages (Real.pipeline w) (fl, k2)).2 :=
   runStages_sim (Real.TcRelS w) Real.notCharset _ _ (Real.pipeline_respects_tc w hdb) (fl, k1) (fl, k2) ⟨rfl, h⟩
+
+/-- `Real.HeaderRel` holds by the SHAPE of the header text: its lines, each terminated by a line feed, the one Content-Type
+    field being the line `Content-Type: text/plain; charset=<name>`; the two names graphic ASCII (`Real.PlainName`) and known
+    to the tool.  (So the hypothesis of `transcoding_composed` about the header entries is: this is what they look like.) -/
+theorem transcoding_header_shape (w : Real.World) (pre post : List Real.Str) (n1 n2 : Real.Str)
+    (hl : ∀ l ∈ pre ++ post, '\n' ∉ l) (hct : ∀ l ∈ pre ++ post, ∀ v, Hdr.parseLine l ≠ .field Real.ctKey v)
+    (p1 : Real.PlainName n1) (p2 : Real.PlainName n2) (t1 : Real.TcName w n1) (t2 : Real.TcName w n2) :
+    Real.HeaderRel w (Real.terminated (pre ++ Real.ctLine n1 :: post)) (Real.terminated (pre ++ Real.ctLine n2 :: post)) :=
+  Real.headerRel_of_lines w pre post n1 n2 hl hct p1 p2 t1 t2
 
 /-- the same from the files: two spelled PO files (C10) whose catalogs have the same header comment and entries related
     by `Real.EntryRel` — e.g. the same catalog transcoded, charset name adjusted -/
